@@ -481,6 +481,13 @@ def rule_Q4(ctx, R):
             site = _site_of(p, n)
             fes = set(faulted_elems(p))
             fe = faulted_elem(p)
+            # small single-fault cases are identified exactly (list length, faulted element, affected elements), so that a new
+            # way of failing at an already known site is still a new finding; larger / multi-fault cases share the coarse key
+            fine = n <= 3 and "+" not in site
+
+            def _ix(r):
+                return r.split("[")[1].split("]")[0] if "[" in (r or "") else str(r)
+            fi = sorted(_ix(x) for x in fes)
             if p.kind == "ret":
                 ok = False
                 _viol(res, "Q4", f, "swallowed:" + site, "%s (n=%d): a panic in a lock operation is swallowed (path: %s)" % (label, n, p.trace()[:300]))
@@ -490,19 +497,22 @@ def rule_Q4(ctx, R):
             h = {k: m for k, m in held_elems(p, n).items() if elem(k) not in fes}
             if h:
                 ok = False
-                _viol(res, "Q4", f, "leak:" + site, "%s: after a panic in %s the call unwinds with lock(s) %s still held "
+                _viol(res, "Q4", f, "leak:" + site + ("#n=%d f=%s leaked=%s" % (n, fi, sorted(h)) if fine else ""),
+                      "%s: after a panic in %s the call unwinds with lock(s) %s still held "
                                                     "(n=%d; path: %s)" % (label, site, sorted(h), n, p.trace()[:500]))
             for pr in p.problems:
                 if pr["k"] == "REL_NOT_HELD":
                     ok = False
                     what = "releases %s although %s" % (pr.get("recv"), {"U": "this call does not hold it", "K": "it was killed"}.get(pr.get("have"), pr.get("have")))
-                    _viol(res, "Q4", f, "bad-release:" + site + ":" + ("faulted" if pr.get("recv") in fes else "other"),
+                    _viol(res, "Q4", f, "bad-release:" + site + ":" + ("faulted" if pr.get("recv") in fes else "other") +
+                          ("#n=%d f=%s rel=%s have=%s" % (n, fi, _ix(pr.get("recv")), pr.get("have")) if fine else ""),
                           "%s: after a panic in %s the unwind path %s (n=%d; path: %s)" % (label, site, what, n, p.trace()[:500]))
             killed = [r for r, m in p.locks.items() if m == "K" and r != fe and r.startswith(LID)]
             kills = [e["recv"] for e in p.ev("KILL") if e["recv"] not in fes]
             if kills:
                 ok = False
-                _viol(res, "Q4", f, "kills-others:" + site, "%s: after a panic in %s locks other than the faulted one are killed: %s "
+                _viol(res, "Q4", f, "kills-others:" + site + ("#n=%d f=%s killed=%s" % (n, fi, sorted(set(_ix(k) for k in kills))) if fine else ""),
+                      "%s: after a panic in %s locks other than the faulted one are killed: %s "
                                                             "(n=%d)" % (label, site, sorted(set(kills)), n))
         if ok:
             res.ok("%s n=%d: %d faulted paths" % (label, n, nf))
